@@ -687,13 +687,20 @@ class Progress:
         if k == "Call":
             short = (n.get("fn") or "").split("::")[-1]
             if n.get("member") and n.get("ch") and stream_of(f, n["ch"][0]) == S:
+                if vs.get("$bad"):
+                    # the code itself has put the stream into a failed state on this path (setstate(failbit))
+                    if short in ("good", "operator bool", "operator void *"):
+                        return False
+                    if short in ("fail", "operator!"):
+                        return True
+                    return None
                 # the stream is good and has content in this mode
                 if short in ("good", "operator bool", "operator void *"):
                     return True
                 if short in ("eof", "fail", "bad", "operator!"):
                     return False
             if n.get("opcall") == "!" and n.get("ch") and stream_of(f, n["ch"][0]) == S:
-                return False
+                return True if vs.get("$bad") else False
             if short in ("strchr", "__builtin_strchr") and len(n.get("ch") or []) == 2:
                 hay = strip(n["ch"][0])
                 hs = None
@@ -715,7 +722,7 @@ class Progress:
             return None
         if k in ("Ref", "Member", "Cast"):
             if stream_of(f, n) == S and is_stream_type(f.ty(n)) and not f.ty(n).endswith("*"):
-                return True
+                return False if vs.get("$bad") else True
             v = self.value(f, S, n, vs, L)
             return bool(v) if isinstance(v, int) else None
         v = self.value(f, S, n, vs, L)
@@ -833,14 +840,22 @@ class Progress:
                 if tgt is not None and tgt["k"] == "Ref":
                     vs.pop(tgt["d"], None)
                 return [(vs, None, cons)]
-            if short in ("getline", "read", "readsome", "seekg", "clear"):
+            if short == "setstate":
+                # setstate(failbit / badbit): every later test of the stream on this path fails
+                if any(y["k"] == "Ref" and y.get("n") in ("failbit", "badbit") for a in args for y in walk(a)):
+                    vs["$bad"] = 1
+                return [(vs, L, cons)]
+            if short == "clear":
+                vs.pop("$bad", None)
+                return [(vs, None, cons)]
+            if short in ("getline", "read", "readsome", "seekg"):
                 return [(vs, None, cons)]
             return [(vs, L, cons)]
         # method of the same object consuming from the same member stream
         if x.get("fk") in self.consumers and x.get("member") and S.startswith("this.") and x.get("ch") and \
                 strip(x["ch"][0]) is not None and strip(x["ch"][0])["k"] == "This" and not any(stream_of(f, a) for a in args):
             outs = self.summary(x["fk"], L, depth, member=S, strargs=self._strargs(args))
-            return [(dict(vs), L2, cons + d) for (d, L2) in outs]
+            return [(dict(vs, **{"$bad": 1}) if L2 == "BAD" else dict(vs), None if L2 == "BAD" else L2, cons + d) for (d, L2) in outs]
         # first-party consumer receiving the stream
         if x.get("fk") in self.consumers and any(stream_of(f, a) == S for a in args):
             outs = self.summary(x["fk"], L, depth, strargs=self._strargs(args))
@@ -855,7 +870,7 @@ class Progress:
                     t0 = strip(s["ch"][0])
                     if t0 is not None and t0["k"] == "Ref":
                         vs.pop(t0["d"], None)
-            return [(vs, L2, cons + d) for (d, L2) in outs]
+            return [(dict(vs, **{"$bad": 1}) if L2 == "BAD" else vs, None if L2 == "BAD" else L2, cons + d) for (d, L2) in outs]
         # any other call: locals passed by reference / address become unknown
         vs2 = None
         for a in args:
@@ -908,7 +923,7 @@ class Progress:
                 if kind == "explosion":
                     outs.add((0, None))
                 elif kind == "return":
-                    outs.add((max(-1, min(1, cons)), L2))
+                    outs.add((max(-1, min(1, cons)), "BAD" if vs.get("$bad") else L2))
         if not outs:
             outs = {(1, None)}      # never returns normally
         self.memo[key] = outs
